@@ -113,13 +113,15 @@ pub struct Exec {
     pub n_epochs: u64, pub n_claims_paid: u64, pub n_rollover_nonzero: u64, pub grace_changes: u64,
     grace0: u64,
     pub strays: u128,
+    pub fees_in: u128,
+    pub paid_out: u128,
     pub probe_kind: Option<&'static str>,
 }
 impl Exec {
     pub fn new(grace: u64, growth: u128) -> Exec {
         let cfg = EpochCfg { grace_period: grace, growth_rate: growth, unbonding_period: 1_000, ..Default::default() };
         Exec { w: deploy_epoch_world(cfg).expect("deploy"), terms: vec![], obs: vec![], history: vec![], paid: Default::default(),
-               n_epochs: 0, n_claims_paid: 0, n_rollover_nonzero: 0, grace_changes: 0, grace0: grace, strays: 0, probe_kind: None }
+               n_epochs: 0, n_claims_paid: 0, n_rollover_nonzero: 0, grace_changes: 0, grace0: grace, strays: 0, fees_in: 0, paid_out: 0, probe_kind: None }
     }
     pub fn replay_json(&self) -> Value {
         if let Some(k) = self.probe_kind { return json!({"kind": k, "script": "two bonders; 270 epochs one day apart with fees 1000+k; claims every 40 epochs and after each of the last 20", "last_events": self.history}); }
@@ -206,6 +208,7 @@ impl Exec {
                         return;
                     }
                     let fee = after.bal - before.bal - attach;
+                    self.fees_in += fee;
                     let g = before.grace as usize;
                     let new = after.epochs[0];
                     // the expiring epoch = oldest of the last `grace` epochs (if that many exist)
@@ -239,7 +242,7 @@ impl Exec {
                         out.monitor_fail("C09", &format!("payout {} != decrease of available {} / increase of claimed {} / decrease of the balance {}", payout, d_av, d_cl, before.bal as i128 - after.bal as i128), replay.clone());
                     }
                     if after.cursors[*who] <= old_cursor { out.monitor_fail("C09", "an accepted claim did not advance the claim cursor", replay.clone()); }
-                    if payout > 0 { self.n_claims_paid += 1; }
+                    if payout > 0 { self.n_claims_paid += 1; self.paid_out += payout as u128; }
                 }
                 Ev::Stray { amount } => {
                     self.strays += *amount;
@@ -255,6 +258,13 @@ impl Exec {
         { let sum_av: u128 = after.epochs.iter().map(|e| nz(e.3)).sum();
           out.monitor_evals += 1;
           if after.bal != sum_av + self.strays { out.monitor_fail("C09", &format!("the distributor holds {} but the available amounts sum to {} and plain transfers added {}", after.bal, sum_av, self.strays), replay.clone()); } }
+        // whole-history conservation (Coq: C09_conservation): every unit ever forwarded is still available in some epoch or recorded as
+        // claimed in some epoch, and the claimed ledgers sum to exactly what claimers were paid
+        { let sum_av: u128 = after.epochs.iter().map(|e| nz(e.3)).sum();
+          let sum_cl: u128 = after.epochs.iter().map(|e| nz(e.4)).sum();
+          out.monitor_evals += 1;
+          if sum_cl != self.paid_out { out.monitor_fail("C09", &format!("the epochs' claimed ledgers sum to {} but claimers were paid {} over the history", sum_cl, self.paid_out), replay.clone()); }
+          if self.fees_in != sum_av + sum_cl { out.monitor_fail("C09", &format!("the collector forwarded {} over the history but the epochs account for available {} + claimed {}", self.fees_in, sum_av, sum_cl), replay.clone()); } }
         let kind = match e { Ev::NewEpoch { .. } => "new_epoch", Ev::NewEpochWith { .. } => "new_epoch_with_funds", Ev::Claim { .. } => "claim", Ev::Stray { .. } => "env:transfer_to_distributor", _ => "set_grace" };
         out.count(&format!("{}:{}", kind, match &r { Outcome::Ok(_) => if payout > 0 { "ok_paid" } else { "ok" }, Outcome::Err(_) => "err", Outcome::Panic(_) => "panic" }));
         self.terms.push(format!("({}, {})", t, term));
